@@ -32,9 +32,12 @@ def live_patterns():
     seen = {}
     orig = U.Unification.__init__
 
-    def rec(self, mx, my):
-        seen[(str(mx), str(my))] = None
-        orig(self, mx, my)
+    def rec(self, *a, **k):
+        # (positional or keyword construction: only the two pattern texts are recorded)
+        vals = list(a) + list(k.values())
+        if len(vals) >= 2:
+            seen[(str(vals[0]), str(vals[1]))] = None
+        orig(self, *a, **k)
     U.Unification.__init__ = rec
     try:
         xs = [Category.parse(s) for s in ('S[dcl]/NP', 'NP', '(S\\NP)/NP', 'S\\NP', '((S\\NP)/NP)/NP', ',')]
@@ -77,8 +80,6 @@ def check_case(case):
         return fails
     if model_of(x) != mx or model_of(y) != my:
         bad('mutates', f'{tag}: arguments changed')
-    if got not in (True, False):
-        bad('non-bool', f'{tag}: returned {got!r}')
     names = list(dict.fromkeys(ou.pattern_vars(mpx) + ou.pattern_vars(mpy)))
     if v is not None and bool(got) is not v:
         bad(f'verdict/{"accepts" if got else "rejects"}-at-{stage}',
@@ -96,11 +97,9 @@ def check_case(case):
                     f'{[canon(t) for _, t in occ[n]]}')
         try:
             u['zz_unknown']
-            bad('unknown-name', f'{tag}: unknown variable name readable')
-        except KeyError:
-            pass
-        except Exception as ex:
-            bad('unknown-name', f'{tag}: unknown name raised {type(ex).__name__}, expected KeyError')
+            bad('unknown-name', f'{tag}: a binding can be read under a name neither pattern uses')
+        except Exception:
+            pass        # (which exception is not stated)
     else:
         for n in names:
             try:
